@@ -86,6 +86,13 @@ CHECKS.update({
             "Trusted: TLC, convertdate.persian and hijridate as reference conversions (per the statement), the token projection using the parser's own tables. Numeric spellings follow the module default order MDY.",
             "DESIGN.md 4 C15"),
 })
+CHECKS.update({
+    "C13": ("model_checking",
+            "TLA+ specification of the locale loop (Pipeline.tla: requested locales with applicability test in priority or given order, then DEFAULT_LANGUAGES without the test) model-checked with TLC over all abstractions of up to 4+2 languages; real single-language, multi-language, default-language, autodetected and region/locale runs related by TLC (T_C13.tla)",
+            "TLC checks on every assignment of (applicable, parses, result) to up to four requested and two default languages that the loop reports a selected locale, returns the first successful language's result and that defaults never override. On the real code, strings in every language (month names, weekday names, relative phrases, ambiguous numeric dates) are parsed with sampled language lists (with / without the string's language, shuffled, given order on / off), every language is paired with en / fr / ja in both list orders on ambiguous numeric dates, DEFAULT_LANGUAGES lists are added, autodetected results are re-parsed with the reported locale and languages+region is compared with the locale code; TLC derives the expected multi-language result from the recorded single-language results.",
+            "Trusted: TLC, the exported language_order as the library's priority order; the independence of a language's outcome from the other languages in the list is C03's subject.",
+            "DESIGN.md 4 C13"),
+})
 NOT_YET = {}
 
 def main():
